@@ -259,7 +259,9 @@ def generate(seed, tier, prop):
            "kw": {"iter": rng.choice([30, 60]), "use_numba": rng.random() < 0.5},
            # per-net continue_on_divergence handed in through ctrl_variables (control runs): a diverging member is
            # then swallowed by its own evaluation and only the combined convergence flag can report it
-           "per_net_cod": per_net_cod}
+           "per_net_cod": per_net_cod,
+           # the ctrl_variables dictionary of the first run is handed to a second run after the controller table changed
+           "reuse_cv": kind in ("control", "control2") and not per_net_cod and rng.random() < 0.4}
     if kind in ("control", "control2") and not fault_free and rng.random() < 0.35:
         # infeasible member: a load the power net cannot serve / a demand the gas net cannot serve
         if rng.random() < 0.5 and power["loads"]:
@@ -554,10 +556,14 @@ def _execute(trace, res, solver):
         cc.install()
         raised = None
         try:
+            cv = None
             if run.get("per_net_cod"):
                 cv = {"nets": {nn: {"continue_on_divergence": True} for nn in sorted(nets)}}
                 run_control_mn(mn, ctrl_variables=cv, **kw)
                 res.count("probe:per-net-continue-on-divergence")
+            elif run.get("reuse_cv"):
+                cv = {"nets": {}}
+                run_control_mn(mn, ctrl_variables=cv, **kw)
             else:
                 run_control_mn(mn, **kw)
         except Exception as e:
@@ -609,11 +615,94 @@ def _execute(trace, res, solver):
             mn, nets = _restart_multinet(res, mn, nets, trace["restart"])
             if mn is None:
                 return
+        # ---- second run with the same ctrl_variables after the controller table changed ------------------
+        if run.get("reuse_cv") and cv is not None and raised is None and expect_ok and not faulted and len(mn.controller) >= 1 \
+                and not trace.get("restart"):
+            _second_run_same_ctrl_variables(res, trace, mn, nets, model, kw, solver, cv, cps)
+            return
         # ---- second run: round trip power -> gas -> power ----------------------------------------
         if run["kind"] == "control2" and raised is None and expect_ok and not faulted:
             _round_trip(res, trace, mn, nets, model, kw, solver)
         return
     _execute_ts(trace, res, solver, kw, cps)
+
+
+def _second_run_same_ctrl_variables(res, trace, mn, nets, model, kw, solver, cv, cps):
+    """The user keeps the ctrl_variables dictionary, takes one coupling controller out of service, changes its source
+    value and runs again: the idle controller must not write any more, the others act on the new values."""
+    prng = random.Random(trace["perm_seed"] + 17)
+    # multinet controller rows are created in the order of the couplings that exist in this (possibly shrunk) world
+    rows = list(mn.controller.index)
+    objs = list(mn.controller.object.values)
+    k_off = prng.randrange(len(rows))
+    off_obj = objs[k_off]
+    mn.controller.at[rows[k_off], "in_service"] = False
+    # which coupling of the trace is that? match by element indices
+    def _same(c, o):
+        try:
+            if c["type"] == "g2g":
+                return list(np.atleast_1d(o.element_index_from)) == c["idx_from"] and list(np.atleast_1d(o.element_index_to)) == c["idx_to"]
+            return list(np.atleast_1d(o.elm_idx_power)) == c["power_idx"] and list(np.atleast_1d(o.elm_idx_gas)) == c["gas_idx"]
+        except AttributeError:
+            return False
+    off = [c for c in cps if _same(c, off_obj)]
+    if len(off) != 1:
+        res.count("probe:reuse-cv-coupling-not-identified")
+        return
+    off = off[0]
+    # change the source value of the idle coupling and of one active coupling (where possible)
+    for c in cps:
+        if c["type"] == "p2g":
+            key = ("power", "load", c["power_idx"][0], "p_mw")
+        elif c["type"] == "g2p":
+            key = (c["gas_net"], "sink", c["gas_idx"][0], "mdot_kg_per_s")
+        elif c["type"] == "g2p_led":
+            key = ("power", c.get("ptype", "sgen"), c["power_idx"][0], "p_mw")
+        else:
+            key = (c["from_net"], "sink", c["idx_from"][0], "mdot_kg_per_s")
+        if key not in model.v or any(w[:4] == key for w in model.written):
+            continue   # (a value another coupling writes is not ours to edit)
+        new = model.v[key] * 1.25
+        model.v[key] = new
+        nets[key[0]][key[1]].at[key[2], key[3]] = new
+    before_target = {w[:4]: float(nets[w[0]][w[1]].at[w[2], w[3]]) for w in model.written}
+    active = [c for c in cps if c is not off]
+    if not _independent(cps):
+        res.count("probe:reuse-cv-dependent-couplings-skipped")
+        return
+    model.apply_couplings(active)
+    twins = _twin_nets(trace, model, kw, solver)
+    if not all(t[1] == "ok" for t in twins.values()):
+        return
+    try:
+        run_control_mn(mn, ctrl_variables=cv, **kw)
+    except CONV_ERRORS as e:
+        res.violate("C20", "C20/second-run-same-ctrl-variables:feasible-reported-failed", repr(e)[:160])
+        return
+    except Exception as e:
+        res.violate("C20", "C20/control-run-raised:%s" % _exc_sig(e), repr(e)[:200])
+        return
+    _check_written(res, nets, model, "second-run-same-ctrl-variables", active)
+    # the idle coupling's targets keep what they held
+    ci_off = cps.index(off)
+    for key, val in before_target.items():
+        if any(w[:4] == key and w[4] == ci_off for w in [(a_, b_, c_, d_, e_) for (a_, b_, c_, d_, e_) in []]):
+            pass
+    if off["type"] == "p2g":
+        tk = [(off["gas_net"], "source", i, "mdot_kg_per_s") for i in off["gas_idx"]]
+    elif off["type"] == "g2p":
+        tk = [("power", off.get("ptype", "sgen"), i, "p_mw") for i in off["power_idx"]]
+    elif off["type"] == "g2p_led":
+        tk = [(off["gas_net"], "sink", i, "mdot_kg_per_s") for i in off["gas_idx"]]
+    else:
+        tk = [(off["to_net"], "source", i, "mdot_kg_per_s") for i in off["idx_to"]]
+    for key in tk:
+        if key in before_target and key[2] in nets[key[0]][key[1]].index:
+            got = float(nets[key[0]][key[1]].at[key[2], key[3]])
+            if not _close(got, before_target[key]):
+                res.violate("C20", "C20/idle-coupling-wrote:%s@second-run-same-ctrl-variables" % off["type"], "%r -> %r" % (before_target[key], got))
+    _compare_member(res, nets, twins, "second-run-same-ctrl-variables")
+    res.count("probe:second-run-same-ctrl-variables-checked")
 
 
 def _restart_multinet(res, mn, nets, path):
